@@ -28,7 +28,7 @@ theorem delete_requires_check (cfg : Cfg) (call : Call) (s : Disk)
     (h0 : OrigHolds s) (h1 : ¬ OrigHolds (run cfg call s).1) :
     cfg.kind = .np24 ∧ call.onShank = false ∧
     call.opts.postCheck = true ∧ call.opts.deleteOriginal = true ∧
-    (∀ i, i < cfg.n → call.corrupt ≠ some i) ∧
+    (∀ i, i < cfg.n → altered cfg call i = false) ∧
     (run cfg call s).2 = .ret 1 ∧ Complete cfg call.opts.compress (run cfg call s).1 := by
   cases hs : call.onShank
   case true => rw [run_onShank_state cfg call s hs] at h1; exact absurd h0 h1
@@ -177,11 +177,11 @@ example : OrigHolds (fresh .bin) ∧ Recoverable cfg24 (fresh .bin) ∧ NoOutput
     NoFault cfg24 (dflt false) ∧ OnOriginalNP2 cfg24 (dflt false) := by
   refine ⟨rfl, Or.inl rfl, ?_, ⟨rfl, ?_⟩, ⟨rfl, Or.inl rfl⟩⟩
   · intro i _; rfl
-  · intro i _; simp [dflt]
+  · intro i _; simp [dflt, altered]
 
 /-- the deleting branch is reachable: a verified forced run removes the original and returns 1 -/
 example : (run cfg24 deleting (fresh .bin)).2 = .ret 1 ∧ ¬ OrigHolds (run cfg24 deleting (fresh .bin)).1 := by
-  have h := forced_rerun_completes cfg24 deleting (fresh .bin) rfl ⟨rfl, Or.inl rfl⟩ rfl ⟨rfl, by intro i _; simp [deleting, dflt]⟩
+  have h := forced_rerun_completes cfg24 deleting (fresh .bin) rfl ⟨rfl, Or.inl rfl⟩ rfl ⟨rfl, by intro i _; simp [deleting, dflt, altered]⟩
   refine ⟨h.1, ?_⟩
   have e := process24_exit cfg24 deleting (fresh .bin)
   rw [← run_np24 cfg24 deleting (fresh .bin) rfl rfl] at e
@@ -193,14 +193,24 @@ example : (run cfg24 { dflt false with interrupt := some (.split 3) } (fresh .bi
   simp [run, cfg24, dflt, process24, fresh, origReadable, alreadyExists24, stopAt, Point.splitIdx, nproc,
     Window.firstlast, Window.firstlastAux]
 
-/-- the unfaithful split is caught by the verification -/
-example : (run cfg24 { dflt false with corrupt := some 1 } (fresh .bin)).2 = .raised .assertion := by
-  simp [run, cfg24, dflt, process24, fresh, origReadable, alreadyExists24, stopAt, splitDiffers, List.range,
-    List.range.loop]
+/-- the unfaithful split is caught by the verification in whichever window the altered sample lies: here shank 1, a
+row of the FIRST processing and FIRST verification window (the run spans 3 processing and 2 verification windows) -/
+example : (run cfg24 { dflt false with corrupt := some ⟨1, 0, 0⟩ } (fresh .bin)).2 = .raised .assertion := by
+  simp [run, cfg24, dflt, process24, fresh, origReadable, alreadyExists24, stopAt, splitDiffers, altered, verifyReads,
+    nproc, Window.firstlast, Window.firstlastAux, List.range, List.range.loop]
+
+/-- … and the `assert` of that first window comes before the reads of the second one: an exception injected at read 3
+(the first read of verification window 1) is never reached, one at read 2 is -/
+example : (run cfg24 { dflt false with corrupt := some ⟨1, 0, 0⟩, interrupt := some (.verify 3) } (fresh .bin)).2 = .raised .assertion ∧
+    (run cfg24 { dflt false with corrupt := some ⟨1, 0, 0⟩, interrupt := some (.verify 2) } (fresh .bin)).2 = .raised .injected := by
+  constructor <;>
+  simp [run, cfg24, dflt, process24, fresh, origReadable, alreadyExists24, stopAt, splitDiffers, altered, verifyReads,
+    nproc, nverif, Window.firstlast, Window.firstlastAux, List.range, List.range.loop, Point.splitIdx, Point.metaIdx,
+    Point.verifyIdx, Point.compressIdx]
 
 /-- NP2.1: compression in place replaces the `.bin` by the `.cbin` -/
 example : (run cfg21 (dflt false) (fresh .bin)).1.orig = .cbin ∧ (run cfg21 (dflt false) (fresh .bin)).2 = .ret 1 := by
-  have h := first_run_completes cfg21 (dflt false) (fresh .bin) rfl ⟨rfl, Or.inr rfl⟩ ⟨rfl, rfl⟩ ⟨rfl, by intro i _; simp [dflt]⟩
+  have h := first_run_completes cfg21 (dflt false) (fresh .bin) rfl ⟨rfl, Or.inr rfl⟩ ⟨rfl, rfl⟩ ⟨rfl, by intro i _; simp [dflt, altered]⟩
   exact ⟨(h.2.1.2 rfl).1, h.1⟩
 
 end IblVerif.C04
